@@ -312,7 +312,7 @@ def C08_forward(r0: int, r1: int, r2: int, nrules: int, forward_all: bool) -> bo
 
 
 # ---- rule patterns ---------------------------------------------------------------------------------------
-PATTERNS = ['a.b', 'a.*', '*.b', 'a.<f>', '<f>.b', 'a.x<f>', 'a.<f>y', 'a.<<f>>', '<<f>>.b', 'a.b*', '*', '<f>', 'a.*.c', 'a.<f>.c']
+PATTERNS = ['a.b', 'a.*', '*.b', 'a.<f>', '<f>.b', 'a.x<f>', 'a.<f>y', 'a.<<f>>', '<<f>>.b', 'a.b*', '*', '<f>', 'a.*.c', 'a.<f>.c', '<<g>>.<f>', '<<g>>.x.<f>', '<f>.<<g>>']
 
 
 def _ref_match(pattern, name):
@@ -324,10 +324,10 @@ def _ref_match(pattern, name):
   for part in pattern.split('.'):
     if '<<' in part and '>>' in part:
       i, j = part.find('<<'), part.find('>>')
-      parts.append(re.escape(part[:i]) + '(?P<f>.+?)' + re.escape(part[j + 2:]))
+      parts.append(re.escape(part[:i]) + '(?P<%s>.+?)' % part[i + 2:j] + re.escape(part[j + 2:]))
     elif '<' in part and '>' in part and part.find('<') < part.find('>'):
       i, j = part.find('<'), part.find('>')
-      parts.append(re.escape(part[:i]) + '(?P<f>[^.]+?)' + re.escape(part[j + 1:]))
+      parts.append(re.escape(part[:i]) + '(?P<%s>[^.]+?)' % part[i + 1:j] + re.escape(part[j + 1:]))
     elif part == '*':
       parts.append('[^.]+')
     else:
@@ -338,10 +338,23 @@ def _ref_match(pattern, name):
   return m.groupdict().get('f', True)
 
 
+class _Ticks(object):
+  """Monotonic counter standing in for time.monotonic inside cachetools.TTLCache."""
+
+  def __init__(self):
+    self.t = 0
+
+  def __call__(self):
+    self.t += 1
+    return self.t
+
+
 def _pattern(pi, name, cache_kind):
   pattern = pick(PATTERNS, pi)
   sset('CACHE_METRIC_NAMES_MAX', [0, 4, 4][cache_kind])
   sset('CACHE_METRIC_NAMES_TTL', [0, 0, 60][cache_kind])
+  old_ttl = real_rules.TTLCache
+  real_rules.TTLCache = lambda size, ttl: old_ttl(size, ttl, timer=_Ticks())      # deterministic clock for the TTL cache
   try:
     rule = real_rules.AggregationRule(pattern, 'out.<f>' if '<' in pattern else 'out.all', 'sum', 10)
     first = rule.get_aggregate_metric(name)
@@ -351,6 +364,7 @@ def _pattern(pi, name, cache_kind):
     other_res = other.get_aggregate_metric(name)
     again = rule.get_aggregate_metric(name)
   finally:
+    real_rules.TTLCache = old_ttl
     sset('CACHE_METRIC_NAMES_MAX', 0)
     sset('CACHE_METRIC_NAMES_TTL', 0)
   want = _ref_match(pattern, name)
@@ -366,7 +380,7 @@ def _pattern(pi, name, cache_kind):
   expect = 'out.all' if want is True else 'out.' + want
   if not (expect == first):
     raise AssertionError('pattern %r on %r gave %r, expected %r' % (pattern, name, first, expect))
-  if want is not True and '<<' not in pattern and '.' in want:
+  if want is not True and '<<f' not in pattern and '.' in want:
     raise AssertionError('<field> spans a dot')
   return True
 
@@ -392,7 +406,7 @@ def _all_names():
 
 
 FIELD_PATTERNS = [x for x in PATTERNS if '<' in x]
-FIELD_NAMES = _all_names()
+FIELD_NAMES = _all_names() + ['a.b.c', 'a.b.a.b', 'a.x.b.c', 'a.x.b', 'b.a.x.b.b', 'a.b.x.a', 'x.x.x.x']
 
 
 def C08_pattern_fields(fi: int, ni: int, cache_kind: int) -> bool:
@@ -482,7 +496,7 @@ HARNESSES = [
   H('C08_forward', quick=dict(timeout=200), covers=['ran'],
     encodes=['carbon.aggregator.processor:AggregationProcessor.process'],
     assumptions=['0..3 stub rules each mapping the metric to nothing / another aggregate / an aggregate named like the metric (symbolic); FORWARD_ALL symbolic']),
-  H('C08_pattern_fields', quick=dict(timeout=280, shards=[('f%d' % i, 'fi == %d' % i) for i in range(len(FIELD_PATTERNS))], extra_pre=['cache_kind == 0 or ni % 7 == 0']),
+  H('C08_pattern_fields', quick=dict(timeout=280, shards=[('f%d' % i, 'fi == %d and cache_kind == 0' % i) for i in range(len(FIELD_PATTERNS))] + [('caches%d' % k, 'cache_kind == %d and ni < 40' % k) for k in (1, 2)]),
     thorough=dict(timeout=900, shards=[('f%d' % i, 'fi == %d' % i) for i in range(len(FIELD_PATTERNS))]), covers=['matched', 'missed'],
     encodes=['carbon.aggregator.rules:AggregationRule.build_regex', 'carbon.aggregator.rules:AggregationRule.get_aggregate_metric',
              'carbon.aggregator.rules:AggregationRule.build_template'],
